@@ -58,7 +58,17 @@ def check(F, R, tier):
     upd2 = F.fn(UA + 'UnrestrictedAtomicMgmt::__internal_update_write_cell')
     load = F.fn(UA + 'UnrestrictedAtomicMgmt::load')
     # ---- store side
-    for f in (store, upd1, upd2):
+    publishers = (store, upd1, upd2)
+    delegated = 0
+    for f in publishers:
+        if not atomics(f, WC, 'fetch_add'):
+            # the increment may be delegated to a sibling publisher (one shared helper instead of a duplicated fetch_add); the ordering is
+            # then judged at the sibling, provided the call happens on every path
+            dl = [c for g in publishers if g is not f for c in f.calls(re.escape(g.id) + '$')]
+            if dl and f.exists_path(None, f.ret_sites(), dl, from_entry=True) is None:
+                delegated += len(dl)
+                R.ob('ORD', 'ORD::%s::%s.fetch_add[order]>=R' % (fnkey(f), WC), True, 'increment delegated to %s on every path' % core.short(dl[0].callee), dl[0].where, f)
+                continue
         ord_floor(R, f, WC, 'fetch_add', 0, 'R', 'SYNC POINT - write: the cell content is published by this increment')
         for a in atomics(f, WC, 'fetch_add'):
             const_arg(R, f, a.site, 1, {1}, 'write-cell-step', 'cells alternate: the counter advances by exactly one per store')
@@ -103,7 +113,7 @@ def check(F, R, tier):
     rems = [s for s in gdc.sites if s.i != 'T' and s.node[0] == 'a' and s.node[2][0] == 'bin' and s.node[2][1] == 'Rem']
     for s in rems:
         t = sym_nstr(sym(gdc, s.node[2][2])), sym_nstr(sym(gdc, s.node[2][3]))
-        R.ob('SYM-EQ', 'SYM-EQ::%s::cell-modulus' % fnkey(gdc), t[0] == 'cell' and t[1] == '2', 'data cell = (%s) %% %s' % t, s.where, gdc)
+        R.ob('SYM-EQ', 'SYM-EQ::%s::cell-modulus' % fnkey(gdc), lib.param_is(gdc, s.node[2][2], 'cell', 4) and t[1] == '2', 'data cell = (%s) %% %s' % t, s.where, gdc)
     R.floor('get_data_cell modulus', len(rems), 1)
     # ---- who may modify the write cell
     allowed = {store.id, upd1.id, upd2.id, load.id}
@@ -115,7 +125,7 @@ def check(F, R, tier):
             if re.search(r'(^|\.)write_cell$', a.recv) and a.op != 'load':
                 n += 1
                 R.ob('WHO-MAY-CALL', 'WHO-MAY-CALL::write_cell-modified-in::%s' % fnkey(f), f.id in allowed, '%s on %s; only store / __internal_update_write_cell (and the identity CAS in load) may touch the write cell' % (a.op, a.recv), a.site.where, f)
-    R.floor('write_cell modification sites', n, 4)
+    R.floor('write_cell modification sites', n + delegated, 4)
     # ---- producer token
     acq = F.fn(UA + 'UnrestrictedAtomicMgmt::__internal_acquire_producer')
     rel = F.fn(UA + 'UnrestrictedAtomicMgmt::__internal_release_producer')
